@@ -1,8 +1,8 @@
 (* C08 — no decoder panics: property-level theorems about the header-parser models.
    g = true : model with the proposed range checks; g = false : the code as it stands in /repo.
    `bytes bs` : every element of the input list is a byte (0..255). Property theorems only. *)
-From V Require Import Common.Base Parsers.PrsOutcome Parsers.PrsJls Parsers.PrsJpeg Parsers.PrsJ2k
-  Parsers.PrsProofsBase Parsers.PrsProofsJls Parsers.PrsProofsJpeg Parsers.PrsProofsJ2k.
+From V Require Import Common.Base Parsers.PrsOutcome Parsers.PrsJls Parsers.PrsJpeg Parsers.PrsBaseline Parsers.PrsJ2k
+  Parsers.PrsProofsBase Parsers.PrsProofsJls Parsers.PrsProofsJpeg Parsers.PrsProofsBaseline Parsers.PrsProofsJ2k.
 
 (* ---- JPEG-LS (jpegls/lossless, jpegls/nearlossless): header loop + parameter derivation ---- *)
 Theorem C08_jls_lossless_no_panic_with_precision_check : forall bs, bytes bs ->
@@ -68,6 +68,22 @@ Theorem C08_dht_table_check_conservative : forall fuel data dc ac,
   dht_tables true fuel data dc ac = dht_tables false fuel data dc ac \/ fst (dht_tables true fuel data dc ac) = Err.
 Proof. exact dht_check_conservative. Qed.
 Print Assumptions C08_dht_table_check_conservative.
+
+(* ---- JPEG baseline (jpeg/baseline): header path up to the first table lookup of the scan ---- *)
+Theorem C08_jpeg_baseline_no_panic_with_selector_checks : forall bs, bytes bs ->
+  fst (bl_decode true (fuel_of bs) bs) <> Panic.
+Proof. exact bl_decode_no_panic. Qed.
+Print Assumptions C08_jpeg_baseline_no_panic_with_selector_checks.
+
+Theorem C08_jpeg_baseline_panics_as_is_scan_without_frame :
+  bytes bl_nosof_witness /\ fst (bl_decode false (fuel_of bl_nosof_witness) bl_nosof_witness) = Panic.
+Proof. exact bl_decode_panics_refuted_no_frame. Qed.
+Print Assumptions C08_jpeg_baseline_panics_as_is_scan_without_frame.
+
+Theorem C08_jpeg_baseline_panics_as_is_table_selector :
+  bytes bl_td_witness /\ fst (bl_decode false (fuel_of bl_td_witness) bl_td_witness) = Panic.
+Proof. exact bl_decode_panics_refuted_selector. Qed.
+Print Assumptions C08_jpeg_baseline_panics_as_is_table_selector.
 
 (* ---- JPEG 2000 codestream main header (jpeg2000/codestream/parser.go) ---- *)
 Theorem C08_j2k_main_header_no_panic_with_length_checks : forall d, bytes d ->
